@@ -42,7 +42,11 @@ def strategy(tier, unit):
         st.builds(lambda x, y, z: [x, x * y, x * y * z, 90.0, 90.0, 90.0], a, S.fl(1.0, 1.7), S.fl(1.0, 1.7)),
         st.builds(lambda x, z: [x, x, x * z, 90.0, 90.0, 120.0], a, S.fl(0.5, 2.0)),
         st.builds(lambda x, al: [x, x, x, al, al, al], a, S.fl(62.0, 108.0)),
-        st.builds(lambda x, y, z, be: [x, x * y, x * y * z, 90.0, be, 90.0], a, S.fl(1.0, 1.7), S.fl(1.0, 1.7), S.fl(91.0, 118.0)))
+        st.builds(lambda x, y, z, be: [x, x * y, x * y * z, 90.0, be, 90.0], a, S.fl(1.0, 1.7), S.fl(1.0, 1.7), S.fl(91.0, 118.0)),
+        # needles and plates: one edge 20 .. 400 times the others (layered structures, long-period superlattices)
+        st.builds(lambda x, y, r: [x, x * y, x * r, 90.0, 90.0, 90.0], a, S.fl(1.0, 1.7), S.logfl(20.0, 400.0)),
+        st.builds(lambda x, y, r: [x * r, x, x * y, 90.0, 90.0, 90.0], a, S.fl(1.0, 1.7), S.logfl(20.0, 400.0)),
+        st.builds(lambda x, r: [x, x, x * r, 90.0, 90.0, 120.0], a, S.logfl(20.0, 400.0)))
     icell = st.tuples(st.integers(3, 12), st.integers(3, 12), st.integers(3, 12), st.sampled_from([90, 90, 80, 100, 95]),
                       st.sampled_from([90, 100, 105, 80, 110]), st.sampled_from([90, 90, 120, 95, 85])).map(list)
     return st.fixed_dictionaries({"cell": st.one_of(red, red, fam, icell), "scale": st.one_of(st.just(1.0), S.logfl(0.5, 100.0)),
@@ -130,9 +134,17 @@ def check(case, ctx):
             # then falls outside |u|,|v|,|w| <= 2 are recognised and skipped below)
             M = M @ uni()[case["M2"]]
             ctx.event("transformed-by-a-product")
-        G = M.T @ G @ M
-        cell = O.cell_from_metric(G)
-        G = O.metric(cell)[0]
+        Gt = M.T @ G @ M
+        ct = O.cell_from_metric(Gt)
+        if O.gram_det(ct) >= 1e-3:
+            G, cell = Gt, ct
+            G = O.metric(cell)[0]
+        else:
+            # the transformed setting would be a cell outside the library's cell domain (angles within a fraction of a degree
+            # of 0 / 180: normalised Gram determinant < 1e-3; C01 itself stops at 0.02) whose six parameters no longer determine the lattice
+            # to working precision; the untransformed setting is used instead
+            transformed = False
+            ctx.event("transformed-setting-too-degenerate (Gram < 1e-3): untransformed setting used")
     A = np.linalg.cholesky(G).T          # upper triangular, A'A = G (same convention as form_a_mat)
     # domain: the true successive minima (wide search) must lie within |u|,|v|,|w| <= 2
     wide = candidate_bases(A, -6, 7)
